@@ -754,6 +754,22 @@ def rule_t7(prog, rep, rid='T7'):
     for g in prog.funcs_in(UNIT):
         if any(x.get('kind') == 'UnaryOperator' and x.get('opcode') == '++' and canon(children(x)[0]).endswith('->tid') for x in walk(g.body)):
             bumpers.add(g.name)
+    # ... and static helpers every path of which calls one (`reset_iterator()` -> `next_tid()`)
+    changed = True
+    while changed:
+        changed = False
+        for g in prog.funcs_in(UNIT):
+            if g.name in bumpers or g.body is None or not g.static:
+                continue
+
+            def calls_b(m):
+                return isinstance(m.ast, dict) and m.kind != 'macro' and any(
+                    y.get('kind') == 'CallExpr' and prog.callee_name(y) in bumpers for y in walk(m.ast))
+            if not any(calls_b(m) for m in g.cfg.nodes):
+                continue
+            if all(_path_to(g.cfg, r, calls_b) is None or calls_b(r) for r in g.cfg.returns() + [p_ for (p_, _l) in g.cfg.exit.preds]):
+                bumpers.add(g.name)
+                changed = True
     rep.notes['epoch_advancing_functions'] = sorted(bumpers)
 
     def bumps(m):
@@ -1037,9 +1053,7 @@ def rule_t11(prog, rep, rid='T11'):
     for g in funcs:
         if writes_mark(g):
             fields = {x.get('name') for x in walk(g.body) if x.get('kind') == 'MemberExpr' and (x.get('_field') or ('',))[0] == NODE}
-            recargs = {canon(a).split('->')[-1] for y in walk(g.body) if y.get('kind') == 'CallExpr' and prog.callee_name(y) == g.name
-                       for a in children(y)[1:]}
-            if {'left', 'right'} <= fields and {'left', 'right'} <= recargs and _purges_every_node(prog, g):
+            if {'left', 'right'} <= fields and _purges_every_node(prog, g):
                 purgers.add(g.name)
     rep.notes['mark_purging_functions'] = sorted(purgers)
     for f in sorted(funcs, key=lambda x: x.line or 0):
@@ -1097,24 +1111,60 @@ def rule_t11(prog, rep, rid='T11'):
                               % (f.name, width, canon(fld), why, 2 ** width))
 
 
+def rule_t11_reserved(prog, rep, rid='T11'):
+    """0 is the mark of a node that no walk has visited (new nodes are zero-initialised, the purge writes 0): the table's own
+    traversal id must never be 0 while it can be handed out.  No function other than the constructor assigns the constant 0 to it."""
+    prog.unit(UNIT)
+    for f in sorted(prog.funcs_in(UNIT), key=lambda x: x.line or 0):
+        if f.body is None:
+            continue
+        if f.unit.resolve_typedef(f.rettype)[0] == 'qtreetbl_s':
+            continue                      # the constructor: the object is built from zeroes anyway
+        for y in walk(f.body):
+            if y.get('kind') == 'BinaryOperator' and y.get('opcode') == '=' and int_value(children(y)[1]) == 0:
+                l = strip(children(y)[0])
+                if l.get('kind') == 'MemberExpr' and l.get('name') == 'tid' and l.get('isArrow') and (l.get('_field') or ('',))[0] != NODE \
+                        and 'qtreetbl_s' in str((l.get('_field') or ('',))[0]):
+                    rep.instance(rid)
+                    rep.oblige(rid, False, {'function': f.name, 'line': y.get('_line')})
+                    rep.violation(rid, f, y.get('_line'), 'reserved-id',
+                                  '%s sets the table\'s traversal id to 0, the mark every node carries that no walk has visited yet: a search '
+                                  'cursor stamped with it makes the continued walk take every node for visited' % f.name)
+
+
 def _purges_every_node(prog, g):
-    """every path through the purger that does not leave because the node pointer is NULL clears the mark and recurses into both
-    subtrees: no other early exit (e.g. "already 0, skip the subtree" - the children may still carry marks)"""
+    """For every node the purger visits it clears the mark and goes on into BOTH subtrees - by a recursive call with the child
+    or by stepping its node variable to the child inside a loop - on every path; the only way out without that is the
+    NULL test of the node variable (no "already unmarked, skip the subtree" short-cut)."""
     cfg = g.cfg
     pn = g.params[0].get('name') if g.params else None
-
-    def has(m, what):
-        if not isinstance(m.ast, dict) or m.kind == 'macro':
-            return False
-        for y in walk(m.ast):
-            if what == 'mark' and y.get('kind') == 'BinaryOperator' and y.get('opcode') == '=' and \
-                    strip(children(y)[0]).get('kind') == 'MemberExpr' and strip(children(y)[0]).get('name') == 'tid' and int_value(children(y)[1]) == 0:
-                return True
-            if what in ('left', 'right') and y.get('kind') == 'CallExpr' and prog.callee_name(y) == g.name and \
-                    any(canon(a).endswith('->' + what) for a in children(y)[1:]):
-                return True
+    if pn is None:
         return False
-    # forward search over (node, facts done); the NULL-pointer exit is exempt
+    ALLF = frozenset(('mark', 'left', 'right'))
+
+    def events(m):
+        out = []
+        if not isinstance(m.ast, dict) or m.kind == 'macro':
+            return out
+        for ev in node_events(m):
+            if ev[0] == 'assign':
+                l = strip(ev[1])
+                if l.get('kind') == 'MemberExpr' and l.get('name') == 'tid' and access_path(children(l)[0]) == pn and int_value(ev[2]) == 0:
+                    out.append(('mark', None))
+                elif access_path(ev[1]) == pn:
+                    r = canon(ev[2])
+                    for c in ('left', 'right'):
+                        if r == '%s->%s' % (pn, c):
+                            out.append(('step', c))
+                            break
+                    else:
+                        out.append(('other', None))
+            elif ev[0] == 'call' and prog.callee_name(ev[1]) == g.name:
+                for a in children(ev[1])[1:]:
+                    for c in ('left', 'right'):
+                        if canon(a) == '%s->%s' % (pn, c):
+                            out.append(('rec', c))
+        return out
     seen, work = set(), [(cfg.entry, frozenset())]
     while work:
         m, done = work.pop()
@@ -1122,21 +1172,36 @@ def _purges_every_node(prog, g):
             continue
         seen.add((m.id, done))
         d2 = set(done)
-        for w in ('mark', 'left', 'right'):
-            if has(m, w):
-                d2.add(w)
+        for (k, c) in events(m):
+            if k == 'mark':
+                d2.add('mark')
+            elif k == 'rec':
+                d2.add(c)
+            elif k == 'step':
+                if not (ALLF - {c}) <= d2:
+                    return False                 # moves on to a child before this node was cleared / the other child handled
+                d2 = set()
+            elif k == 'other':
+                return False
         d2 = frozenset(d2)
         for (s2, lab) in m.succs:
             if m.kind == 'cond' and isinstance(m.ast, dict):
                 t = cond_null_test(m.ast)
                 if t and t[0] == pn and ((lab == 'T') == t[1]):
-                    continue                  # obj == NULL: nothing to purge below
+                    if d2 - {'live'}:
+                        return False
+                    continue                      # node pointer NULL: nothing to purge here
+                if t and t[0] == pn:
+                    work.append((s2, d2 | {'live'}))      # a node is in hand from here on
+                    continue
             if s2 is cfg.exit:
-                if d2 != frozenset(('mark', 'left', 'right')):
+                if d2 and not ALLF <= d2:
                     return False
                 continue
             work.append((s2, d2))
-    return True
+    # the function must contain the three ingredients at all
+    allev = {(k, c) for m in cfg.nodes for (k, c) in events(m)}
+    return ('mark', None) in allev and all(('rec', c) in allev or ('step', c) in allev for c in ('left', 'right'))
 
 
 def _reach_node(cfg, a, b):
@@ -1152,7 +1217,7 @@ def _reach_node(cfg, a, b):
     return False
 
 
-def rule_t13(prog, rep, rid='T13'):
+def rule_t13(prog, rep, rid='T13', unit=None, node=None, primary=('root',)):
     """A remembered node (a node-pointer field of the table record other than the root, assigned by a function that neither
     frees nodes nor moves payloads - a lookup remembering what it found) is derived state.  Freeing a node, calling a
     function that may free nodes, or moving a key from one node to another invalidates it: on every path after such an
@@ -1160,15 +1225,17 @@ def rule_t13(prog, rep, rid='T13'):
     not to be the remembered one (the F edge of `field == node`)."""
     rep.rule(rid, 'a remembered node of the tree table is reset or re-established after every event that frees a node or moves a key between '
                   'nodes (unless the freed node is known to be a different one)')
-    prog.unit(UNIT)
-    funcs = [f for f in prog.funcs_in(UNIT) if f.body is not None]
-    u = prog.unit(UNIT)
+    UNIT_ = unit or UNIT
+    NODE_ = node or NODE
+    prog.unit(UNIT_)
+    funcs = [f for f in prog.funcs_in(UNIT_) if f.body is not None]
+    u = prog.unit(UNIT_)
 
     def node_typed(e):
         t = (qtype(strip(e)) or '')
         if not t.rstrip().endswith('*'):
             return False
-        return u.resolve_typedef(t.replace('*', '').replace('const', '').replace('struct', '').strip())[0] == NODE
+        return u.resolve_typedef(t.replace('*', '').replace('const', '').replace('struct', '').strip())[0] == NODE_
     # functions that may free a node
     def fresh_locals(f):
         """locals that hold a node allocated in this very function (never visible to a lookup yet)"""
@@ -1202,7 +1269,7 @@ def rule_t13(prog, rep, rid='T13'):
     def moves_key(y):
         if y.get('kind') == 'BinaryOperator' and y.get('opcode') == '=':
             l, r = strip(children(y)[0]), strip(children(y)[1])
-            return l.get('kind') == 'MemberExpr' and l.get('name') == 'name' and (l.get('_field') or ('',))[0] == NODE and \
+            return l.get('kind') == 'MemberExpr' and l.get('name') == 'name' and (l.get('_field') or ('',))[0] == NODE_ and \
                 r.get('kind') == 'MemberExpr' and r.get('name') == 'name'
         return False
     # cache fields
@@ -1211,7 +1278,7 @@ def rule_t13(prog, rep, rid='T13'):
         for y in walk(f.body):
             if y.get('kind') == 'BinaryOperator' and y.get('opcode') == '=':
                 l = strip(children(y)[0])
-                if l.get('kind') == 'MemberExpr' and l.get('_field') and l['_field'][0] != NODE and l.get('name') != 'root' \
+                if l.get('kind') == 'MemberExpr' and l.get('_field') and l['_field'][0] != NODE_ and l.get('name') not in primary \
                         and node_typed(l) and not is_null(children(y)[1]):
                     assigned.setdefault((l['_field'][0], l.get('name')), set()).add(f.name)
     mutators = {f.name for f in funcs if f.name in freers or any(moves_key(y) for y in walk(f.body))}
@@ -1221,6 +1288,17 @@ def rule_t13(prog, rep, rid='T13'):
         def is_field(e):
             e = strip(e)
             return e.get('kind') == 'MemberExpr' and e.get('name') == fld and (e.get('_field') or ('',))[0] == rec
+
+        def _destroys(f):
+            for y in walk(f.body):
+                if y.get('kind') == 'CallExpr' and prog.callee_name(y) == 'free' and len(children(y)) > 1:
+                    a_ = strip(children(y)[1])
+                    if a_.get('kind') == 'DeclRefExpr' and (a_.get('_ref') or ('',))[0] == 'param':
+                        t_ = (qtype(a_) or '')
+                        if u.resolve_typedef(t_.replace('*', '').replace('const', '').replace('struct', '').strip())[0] == rec:
+                            return True
+            return False
+        destroyers = {f.name for f in funcs if _destroys(f)}
 
         def analyse(f, dirty):
             """does f return with the remembered node possibly stale?  -> (bool, line of the first invalidating event)"""
@@ -1235,7 +1313,7 @@ def rule_t13(prog, rep, rid='T13'):
                     for ev in node_events(m):
                         if ev[0] == 'assign' and is_field(ev[1]):
                             st = {x for x in st if x[0] != 'st'} | {('st', 'I' if is_null(ev[2]) else 'V')}
-                        elif ev[0] == 'assign' and moves_key(ev[3]):
+                        elif ev[0] == 'assign' and moves_key(ev[3]) and f.name in freers:
                             if ('st', 'V') in st:
                                 st.discard(('st', 'V'))
                                 st.add(('st', 'S'))
@@ -1243,6 +1321,9 @@ def rule_t13(prog, rep, rid='T13'):
                         elif ev[0] == 'call':
                             nm = prog.callee_name(ev[1])
                             inval = False
+                            if nm in destroyers:
+                                st = {x for x in st if x[0] != 'st'} | {('st', 'I')}       # the table itself is gone
+                                continue
                             if frees_old_node(f, ev[1]):
                                 inval = ('ne', access_path(children(ev[1])[1])) not in st
                             elif nm in dirty:
@@ -1283,7 +1364,19 @@ def rule_t13(prog, rep, rid='T13'):
                     dirty.add(f.name)
                     lines[f.name] = line
                     changed = True
+        def destroys_container(f):
+            # free(<parameter of the container type>): the table itself goes away, nothing can be looked up afterwards
+            for y in walk(f.body):
+                if y.get('kind') == 'CallExpr' and prog.callee_name(y) == 'free' and len(children(y)) > 1:
+                    a_ = strip(children(y)[1])
+                    if a_.get('kind') == 'DeclRefExpr' and (a_.get('_ref') or ('',))[0] == 'param':
+                        t_ = (qtype(a_) or '')
+                        if u.resolve_typedef(t_.replace('*', '').replace('const', '').replace('struct', '').strip())[0] == rec:
+                            return True
+            return False
         for f in sorted(funcs, key=lambda x: x.line or 0):
+            if destroys_container(f):
+                continue
             if f.static or f.name not in mutators and f.name not in dirty and not any(
                     y.get('kind') == 'CallExpr' and prog.callee_name(y) in (freers | dirty) for y in walk(f.body)):
                 continue
